@@ -273,7 +273,7 @@ class Design:
   def cls_name(self, comp):
     return f'Gen{self.uid}_{comp or "Top"}'
 
-def generate(rng, max_blocks=8, with_children=True, with_regs=True, wide=False, max_regs=3, min_regs=0, structs=None):
+def generate(rng, max_blocks=8, with_children=True, with_regs=True, wide=False, max_regs=3, min_regs=0, structs=None, many_wires=False):
   """an acyclic, single-writer design"""
   d = Design(rng, next(_uid))
   W = lambda: rng.choice([1, 2, 3, 4, 4, 8, 8, 8, 12, 16] + ([32, 64] if wide else []))
@@ -297,6 +297,8 @@ def generate(rng, max_blocks=8, with_children=True, with_regs=True, wide=False, 
   for nm in names('in', n_in): d.new_sig('', nm, W(), 'in', ST())
   for nm in names('out', rng.randint(1, 3)): d.new_sig('', nm, W(), 'out', ST())
   for nm in names('w', rng.randint(1, 4)): d.new_sig('', nm, W(), 'wire', ST())
+  if many_wires:
+    for i in range(rng.randint(8, 12)): d.new_sig('', f'r{i}', W(), 'wire')
   if rng.random() < 0.4:      # a list of wires / out ports: s.wl = [Wire(..) for _ in range(k)]
     lw, lst, kind = W(), ST(), rng.choice(['wire', 'wire', 'out'])
     for i in range(rng.randint(2, 3)): d.new_sig('', f'{"wl" if kind == "wire" else "ol"}[{i}]', lw, kind, lst)
@@ -344,7 +346,7 @@ def generate(rng, max_blocks=8, with_children=True, with_regs=True, wide=False, 
   for comp, regs in by_comp.items():
     rng.shuffle(regs)
     while regs:
-      k = 1 if rng.random() < 0.6 else rng.randint(1, min(2, len(regs)))
+      k = 1 if (rng.random() < 0.6 or many_wires) else rng.randint(1, min(2, len(regs)))
       mine, regs = regs[:k], regs[k:]
       make_ff(d, comp, mine)
   return d
